@@ -119,6 +119,7 @@ class State:
         self.hits = []       # (fn, bindings, token) per invocation of a probe
         self.origin = {}     # wrapper index -> ("wf"|"we"|"wc"|"rw"|"pe"|"dc", source index or None)
         self.tok = itertools.count(5000)
+        self.pe_info = {}    # wrapper index -> what a partial evaluation bound (sigma) over the source's defaults then
         self.carriers = []   # Points objects that live through the history: dict(obj=Points, dims=[(name, dim)])
         self.consts = {}     # fn -> the constant object as created
         self.constkey = {}   # content key of a tensor constant -> fn
@@ -388,7 +389,9 @@ def run_op(st, op, idx, problems):
             import torch
             _, dims, dtype, data = op
             pts = st.tp.spaces.Points(torch.tensor(data, dtype=getattr(torch, dtype)), st.tp.spaces.Space(dict((a, b) for a, b in dims)))
-            st.carriers.append(dict(obj=pts, dims=[(a, b) for a, b in dims]))
+            dl = [(a, b) for a, b in dims]
+            st.carriers.append(dict(obj=pts, dims=dl, aliased=False,
+                                    shadow={n: t.clone() for n, t in stored_slices(pts, dl).items()}))
             return None
         if kind == "pt":
             carrier_transform(st, op)
@@ -444,11 +447,15 @@ def run_op(st, op, idx, problems):
             else:
                 w = st.cls(src)
             st.ws.append(w); st.origin[len(st.ws) - 1] = ("rw", op[1])
+            if op[1] in st.pe_info:
+                st.pe_info[len(st.ws) - 1] = st.pe_info[op[1]]
             out = f"w{len(st.ws) - 1}"
         elif kind == "dc":
             src = st.ws[op[1]]
             w = copy.deepcopy(src)
             st.ws.append(w); st.origin[len(st.ws) - 1] = ("dc", op[1])
+            if op[1] in st.pe_info:
+                st.pe_info[len(st.ws) - 1] = st.pe_info[op[1]]
             out = f"w{len(st.ws) - 1}"
             if w is src or getattr(w, "defaults", None) is src.defaults:
                 problems.append(f"{where}: deepcopy returned an object that shares state with its source")
@@ -461,8 +468,16 @@ def run_op(st, op, idx, problems):
                 # these values are what the model is told the environment contains
                 car = st.carriers[op[4]]
                 env_obj = car["obj"]
-                env_map = stored_slices(env_obj, car["dims"])
+                # ground truth = the shadow: what the object stores under every name according to its derivation
+                # history (creation, conversions, assignments, selections, joins ...), kept by the harness by name
+                env_map = dict(car["shadow"])
                 op[2] = pairs = [[name, vid(t)] for name, t in env_map.items()]
+                raw = stored_slices(env_obj, car["dims"])
+                if [(n, vid(t)) for n, t in raw.items()] != [(n, vid(t)) for n, t in env_map.items()]:
+                    derived_note = " [the raw tensor of this Points object does not hold, in the order of its space, what its history says]"
+                else:
+                    derived_note = ""
+                where = where + derived_note
             elif kind == "ca" and len(op) > 4 and op[3] == "map":
                 env_obj = {} if op[4] == "omitted" else build_mapping(st, pairs, op[4], op[5] if len(op) > 5 else 0)
                 env_map = env_obj
@@ -492,6 +507,9 @@ def run_op(st, op, idx, problems):
         elif kind == "cv":
             out = run_vectorized(st, op, hits0, problems, where)
         elif kind == "sd":
+            for i, x in enumerate(st.ws):       # by contract the defaults change: the record of partial evaluations ends
+                if getattr(x, "defaults", None) is st.ws[op[1]].defaults:
+                    st.pe_info.pop(i, None)
             w = st.ws[op[1]]
             kw = {k: mkval(v, st.mode) for k, v in op[2]}
             defaults_before = dict(w.defaults)
@@ -505,6 +523,9 @@ def run_op(st, op, idx, problems):
                 if k not in dict(op[2]) and vid(w.defaults.get(k)) != vid(v):
                     problems.append(f"{where}: set_default changed the default of {k!r}, which it was not given")
         elif kind == "rd":
+            for i, x in enumerate(st.ws):
+                if getattr(x, "defaults", None) is st.ws[op[1]].defaults:
+                    st.pe_info.pop(i, None)
             w = st.ws[op[1]]
             try:
                 if len(op) > 3 and op[3] == "kw":
@@ -549,15 +570,17 @@ def run_op(st, op, idx, problems):
 
 
 def carrier_transform(st, op):
-    """the user works with an own Points object between two calls"""
+    """the user works with own Points objects between two calls; the harness keeps, by NAME, what each object must
+    store according to this history (`shadow`)"""
     import torch
     _, k, what = op[:3]
     car = st.carriers[k]
     pts = car["obj"]
-    if what == "to32":
-        pts.to(torch.float32)
-    elif what == "to64":
-        pts.to(torch.float64)
+    sh = car["shadow"]
+    if what in ("to32", "to64"):
+        dt = torch.float32 if what == "to32" else torch.float64
+        pts.to(dt)
+        car["shadow"] = {n: t.to(dt) for n, t in sh.items()}
     elif what == "read":
         repr(pts)
         pts.coordinates
@@ -566,9 +589,48 @@ def carrier_transform(st, op):
     elif what == "setitem":
         row = st.tp.spaces.Points(torch.tensor([op[3]], dtype=pts.as_tensor.dtype), pts.space)
         pts[0:1] = row
+        start = 0
+        for n, d in car["dims"]:
+            sh[n] = sh[n].clone()
+            sh[n][0:1] = row.as_tensor[:, start:start + d]
+            start += d
+    elif what == "setcols":
+        # assignment through a variable list in another order than the storage order
+        names = op[3]
+        dims = dict(car["dims"])
+        width = sum(dims[n] for n in names)
+        vals = torch.tensor([op[4][:width]], dtype=pts.as_tensor.dtype)
+        pts[0:1, list(names)] = st.tp.spaces.Points(vals, st.tp.spaces.Space({n: dims[n] for n in names}))
+        start = 0
+        for n in names:
+            sh[n] = sh[n].clone()
+            sh[n][0:1] = vals[:, start:start + dims[n]]
+            start += dims[n]
     elif what == "slice":
         a, b = op[3]
-        st.carriers.append(dict(obj=pts[a:b], dims=list(car["dims"])))
+        car["aliased"] = True       # a row slice is a view of the parent's tensor
+        st.carriers.append(dict(obj=pts[a:b], dims=list(car["dims"]), aliased=True,
+                                shadow={n: t[a:b].clone() for n, t in sh.items()}))
+    elif what == "select":
+        # variables picked by a list / tuple, in the REQUESTED order
+        names = op[3]
+        key = tuple(names) if len(op) > 4 and op[4] == "tuple" else list(names)
+        dims = dict(car["dims"])
+        st.carriers.append(dict(obj=pts[:, key], dims=[(n, dims[n]) for n in names], aliased=False,
+                                shadow={n: sh[n].clone() for n in names}))
+    elif what == "join":
+        other = st.carriers[op[3]]
+        st.carriers.append(dict(obj=pts.join(other["obj"]), dims=list(car["dims"]) + list(other["dims"]), aliased=False,
+                                shadow={**{n: t.clone() for n, t in sh.items()}, **{n: t.clone() for n, t in other["shadow"].items()}}))
+    elif what == "repeat":
+        st.carriers.append(dict(obj=pts.repeat(op[3]), dims=list(car["dims"]), aliased=False,
+                                shadow={n: t.repeat(op[3], 1) for n, t in sh.items()}))
+    elif what == "fromcoords":
+        # Points.from_coordinates(dict) in another order of the names
+        names = op[3]
+        st.carriers.append(dict(obj=st.tp.spaces.Points.from_coordinates({n: sh[n].clone() for n in names}),
+                                dims=[(n, dict(car["dims"])[n]) for n in names], aliased=False,
+                                shadow={n: sh[n].clone() for n in names}))
     else:
         raise common.HarnessTrouble(f"unknown carrier transformation {op}")
 
@@ -687,6 +749,17 @@ def judge_eval(st, w, kind, op, env, defaults_before, exc, res, new_hits, proble
                             f"but partially_evaluate returned a wrapper instead of the function value")
         if res is w:
             problems.append(f"{where}: partially_evaluate returned the wrapper itself, not a new one")
+        # what one full evaluation would use: the supplied value of every declared name in sigma (also of a name that
+        # already had a default), else what the source wrapper had at that moment
+        src_info = st.pe_info.get(op[1])
+        bound = dict(src_info["bound"]) if src_info else {k: vid(v) for k, v in defaults_before.items()}
+        bound.update({k: vid(v) for k, v in env.items() if k in P})
+        st.pe_info[len(st.ws) - 1] = dict(bound=bound, sigma=sorted(k for k in env if k in P), source=op[1])
+        for k in P:
+            if k in env and vid(res.defaults.get(k)) != vid(env[k]):
+                problems.append(f"{where}: partially_evaluate was given {k}={desc(vid(env[k]))} but the returned wrapper keeps "
+                                f"{k}={showval(res.defaults.get(k)) if k in res.defaults else '<unbound>'}: given the remaining names it "
+                                f"cannot yield the value of one full evaluation with {k}={desc(vid(env[k]))}")
         return out
     if len(new_hits) != 1:
         problems.append(f"{where}: the user function was invoked {len(new_hits)} times, result {type(res).__name__}")
@@ -697,6 +770,13 @@ def judge_eval(st, w, kind, op, env, defaults_before, exc, res, new_hits, proble
     if want[0] == "reject":
         problems.append(f"{where}: required name {want[1]!r} is neither supplied ({sorted(env)}) nor a default "
                         f"({sorted(defaults_before)}) but the function was invoked with {got}")
+    elif kind == "ca" and op[1] in st.pe_info and want[0] == "bind" and \
+            {p: (vid(env[p]) if p in env else st.pe_info[op[1]]["bound"].get(p)) for p in P} != got:
+        info = st.pe_info[op[1]]
+        full = {p: (vid(env[p]) if p in env else info["bound"].get(p)) for p in P}
+        problems.append(f"{where}: wrapper {op[1]} came from partially_evaluate (names bound on the way: {info['sigma']}); called with "
+                        f"{dict((k, desc(vid(v))) for k, v in env.items())} the function received {dict((k, desc(v)) for k, v in got.items())}, "
+                        f"one full evaluation with all names together receives {dict((k, desc(v) if v is not None else None) for k, v in full.items())}")
     elif got != want[1] or list(kw) != P:
         problems.append(f"{where}: the function received {dict((k, desc(v)) for k, v in got.items())}; by name it must receive "
                         f"{dict((k, desc(v)) for k, v in want[1].items())} (supplied {dict((k, desc(vid(v))) for k, v in env.items())}, "
@@ -825,8 +905,22 @@ class Gen:
             self.car_for.append(r)
             k = len(st.carriers)
             self.pending = [["ca", r, [], "carrier", k]]
-            if rng.random() < 0.6:      # use it, convert / look at it, use it again
+            u = rng.random()
+            if u < 0.45:      # use it, convert / look at it, use it again
                 self.pending += [["pt", k, rng.choice(["to32", "to32", "to64", "read"])], ["ca", r, [], "carrier", k]]
+            elif u < 0.8 and len(dims) > 1:     # derive another Points object from it: the variables in another order
+                sel = [p for p, _ in dims]
+                rng.shuffle(sel)
+                if sel == [p for p, _ in dims]:
+                    sel.reverse()
+                self.pending += [["pt", k, rng.choice(["select", "select", "fromcoords"]), sel], ["ca", r, [], "carrier", k + 1]]
+                self.car_for.append(r)
+                if rng.random() < 0.4:
+                    self.pending += [["pt", k + 1, rng.choice(["repeat", "to32", "slice"])], ["ca", r, [], "carrier", k + 1]]
+                    self.pending[-2] += [[2] if self.pending[-2][2] == "repeat" else [[0, 1]] if self.pending[-2][2] == "slice" else []][0]
+                    if self.pending[-2][2] in ("repeat", "slice"):
+                        self.pending[-1][4] = k + 2
+                        self.car_for.append(r)
             return ["np", dims, rng.choice(["float64", "float64", "float32"]), data]
         if kind in ("pt", "cc"):
             k = len(st.carriers) - 1 if rng.random() < 0.6 else rng.randrange(len(st.carriers))
@@ -837,11 +931,35 @@ class Gen:
             if kind == "cc":
                 return call
             pts = st.carriers[k]["obj"]
-            whats = ["to32", "to32", "to64", "to64", "read", "slice"]
-            if not pts.requires_grad:
-                whats += ["setitem", "setitem", "reqgrad"]
+            car = st.carriers[k]
+            names_k = [n for n, _ in car["dims"]]
+            whats = ["to32", "to32", "to64", "to64", "read", "slice", "select", "select", "select", "repeat", "fromcoords"]
+            if not pts.requires_grad and not car.get("aliased"):
+                whats += ["setitem", "setitem", "reqgrad", "setcols"]
+            others = [j for j, c in enumerate(st.carriers) if j != k and len(c["obj"]) == len(pts)
+                      and c["obj"].as_tensor.dtype == pts.as_tensor.dtype and not set(n for n, _ in c["dims"]) & set(names_k)]
+            if others:
+                whats += ["join", "join"]
             what = rng.choice(whats)
             op = ["pt", k, what]
+            if what in ("select", "fromcoords", "setcols"):
+                # mostly everything the target wrapper needs, in ANOTHER order than the storage order
+                sel = list(names_k) if rng.random() < 0.6 else rng.sample(names_k, rng.randint(1, len(names_k)))
+                rng.shuffle(sel)
+                if len(sel) > 1 and sel == [n for n in names_k if n in sel]:
+                    sel.reverse()
+                op.append(sel)
+                if what == "select" and rng.random() < 0.3:
+                    op.append("tuple")
+                if what == "setcols":
+                    op.append([3.0 + rng.random() / 7.0 for _ in range(pts.as_tensor.shape[-1])])
+            if what == "join":
+                op.append(rng.choice(others))
+            if what == "repeat":
+                op.append(rng.choice([2, 3]))
+            if what in ("select", "join", "repeat", "fromcoords"):
+                self.car_for.append(self.car_for[k])
+                call = ["ca", r, [], "carrier", len(st.carriers)]
             if what == "setitem":
                 op.append([7.0 + rng.random() / 7.0 for _ in range(pts.as_tensor.shape[-1])])
             if what == "slice":
@@ -982,6 +1100,18 @@ def model_line(case):
 
 
 CORPUS = [
+    # Points arguments with a derivation history: variables selected in another order than they are stored, joins, repeats
+    dict(cls="UserFunction", mode="tensor", ops=[
+        ["wf", 0, ["t", "x", "k"], [5]], ["np", [["x", 2], ["t", 1], ["k", 1]], "float64", [[0.25, 0.5, 1 / 3, 0.75], [1.25, 1.5, 2 / 3, 1.75]]],
+        ["pt", 0, "select", ["t", "x"]], ["ca", 0, [], "carrier", 1], ["pt", 0, "select", ["k", "t", "x"], "tuple"], ["ca", 0, [], "carrier", 2],
+        ["pt", 0, "setcols", ["t", "x"], [3.5, 3.25, 3.125, 0]], ["ca", 0, [], "carrier", 0], ["pt", 1, "repeat", 2], ["ca", 0, [], "carrier", 3],
+        ["np", [["q", 1]], "float64", [[9.5], [8.5]]], ["pt", 1, "join", 4], ["ca", 0, [], "carrier", 5], ["pt", 0, "fromcoords", ["k", "x", "t"]],
+        ["ca", 0, [], "carrier", 6], ["pt", 2, "slice", [1, 2]], ["ca", 0, [], "carrier", 7]]),
+    # several partial evaluations from one parent; a supplied value for a name that already has a default must win
+    dict(cls="UserFunction", mode="int", ops=[
+        ["wf", 0, ["x", "y", "scale"], [2]], ["pe", 0, [["x", 3], ["scale", 4]]], ["ca", 1, [["y", 5]]], ["ca", 0, [["x", 3], ["y", 5], ["scale", 4]]],
+        ["pe", 0, [["x", 6]]], ["ca", 1, [["y", 7]]], ["ca", 2, [["y", 7]]], ["ca", 0, [["x", 8], ["y", 9]]],
+        ["wf", 1, ["t", "a", "b"], []], ["pe", 3, [["t", 1]]], ["pe", 4, [["t", 2], ["a", 3]]], ["ca", 5, [["b", 4]]], ["ca", 4, [["a", 5], ["b", 6]]]]),
     # the KIND of mapping: a defaultdict / a dict subclass with __missing__ answers absent names itself; the wrapper
     # must ask `in` first, bind its own defaults and leave the container alone
     dict(cls="UserFunction", mode="int", ops=[["wf", 0, ["a", "b", "c"], [1, 2]], ["ca", 0, [["a", 5]], "map", "defaultdict", 0],
